@@ -695,6 +695,12 @@ const IDS: &[&str] = &[
     "a_very_long_identifier_that_goes_on_and_on_and_on_0123456789",
 ];
 pub const NUMERALS: &[&str] = &[
+    "0x_",
+    "0X__",
+    "0x",
+    "0x_1",
+    "0x1_",
+    "0b1",
     "0",
     "1",
     "42",
